@@ -351,6 +351,72 @@ func runC08(p *core.Prog, r *core.Report) {
 	// ---- R4
 	r.Guard("C08.R4", "deltas", "delta construction", func() { checkDeltaConstruction(p, r, "C08.R4") })
 
+	r.Guard("C08.R2", "GetAt/setsum-tag", "the set_sum tag is stripped only for set_sum stores", func() {
+		fn := p.Func(pkgStore, "baseStore.GetAt")
+		r.Touch(core.FuncName(fn))
+		var strips []ssa.Instruction
+		core.Instrs(fn, func(in ssa.Instruction) {
+			if sl, ok := in.(*ssa.Slice); ok && sl.Low != nil {
+				if k, ok := sl.Low.(*ssa.Const); ok && k.Int64() == 4 {
+					strips = append(strips, in)
+				}
+			}
+		})
+		if len(strips) == 0 {
+			core.Undecide("GetAt: no tag stripping (out[4:]) found")
+		}
+		var policyEdges, foundEdges []core.Edge
+		core.Instrs(fn, func(in ssa.Instruction) {
+			ifi, ok := in.(*ssa.If)
+			if !ok {
+				return
+			}
+			onT, onF, ok := core.CondRelation(ifi.Cond, func(v ssa.Value) bool {
+				c, ok := v.(*ssa.Call)
+				return ok && core.CommonCallee(c.Common()) != nil && core.CommonCallee(c.Common()).Name() == "UpdatePolicy"
+			}, func(v ssa.Value) bool {
+				k, ok := v.(*ssa.Const)
+				return ok && k.Value != nil && k.Value.ExactString() == p.Const(pkgPBV1, "Module_KindStore_UPDATE_POLICY_SET_SUM").Val().ExactString()
+			})
+			if ok {
+				if onT == core.OrdEQ {
+					policyEdges = append(policyEdges, core.Edge{From: ifi.Block(), Idx: 0})
+				}
+				if onF == core.OrdEQ {
+					policyEdges = append(policyEdges, core.Edge{From: ifi.Block(), Idx: 1})
+				}
+				return
+			}
+			// the found flag of the inner getAt
+			c, neg := core.StripNot(ifi.Cond)
+			if ex, ok := core.ResolveCell(c).(*ssa.Extract); ok && ex.Index == 1 {
+				if call, ok := ex.Tuple.(*ssa.Call); ok && core.CommonCallee(call.Common()) == p.FuncObj(pkgStore, "baseStore.getAt") {
+					idx := 0
+					if neg {
+						idx = 1
+					}
+					foundEdges = append(foundEdges, core.Edge{From: ifi.Block(), Idx: idx})
+				}
+			}
+		})
+		for _, edges := range [][]core.Edge{policyEdges, foundEdges} {
+			edges := edges
+			q := core.PathQuery{Fn: fn, CutEdge: func(e core.Edge) bool { return containsEdge(edges, e) }}
+			_, reach := q.CanReach(nil, func(x ssa.Instruction) bool {
+				for _, s := range strips {
+					if x == s {
+						return true
+					}
+				}
+				return false
+			})
+			if len(edges) == 0 || reach {
+				r.Fail("C08.R2", "GetAt/setsum-tag", "get_at strips the 4-byte set:/sum: tag only from a value that was found in a set_sum store: for every other policy the bytes read are the bytes written", "the tag stripping is reachable without the `found` edge or without the `UpdatePolicy() == SET_SUM` edge", p.Pos(fn.Pos()))
+				return
+			}
+		}
+		r.Pass("C08.R2", "GetAt/setsum-tag", "get_at strips the 4-byte set:/sum: tag only from a value that was found in a set_sum store: for every other policy the bytes read are the bytes written", p.Pos(fn.Pos()))
+	})
 	r.Guard("C08.R4", "in-place", "store values are never written in place", func() { checkNoInPlaceMutation(p, r, "C08.R4") })
 	r.Guard("C08.R5", "host-interface", "intrinsics forward their arguments", func() { checkHostArgs(p, r, "C08.R5") })
 	r.MinInstances("C08.R1", 5)
